@@ -1,7 +1,7 @@
 CONSTANTS
   Variant = "impure"
   Family = "render"
-  Size = "q"
+  Size = "m"
 INIT Init
 NEXT Next
 CHECK_DEADLOCK FALSE
